@@ -118,7 +118,7 @@ class Native:
             return None
         return exe
 
-    def run(self, exe, inputs, timeout=120):
+    def run(self, exe, inputs, timeout=120, mpiexec=0):
         f = exe + '.%d.in' % (abs(hash(json.dumps(inputs, sort_keys=True))) % 10**9)
         with open(f, 'w') as fp:
             for k, v in inputs.items():
@@ -130,7 +130,8 @@ class Native:
         env['OMPI_ALLOW_RUN_AS_ROOT'] = '1'
         env['OMPI_ALLOW_RUN_AS_ROOT_CONFIRM'] = '1'
         try:
-            p = subprocess.run([exe], stdout=subprocess.PIPE, stderr=subprocess.PIPE, text=True, env=env, timeout=timeout)
+            cmd = [exe] if not mpiexec else ['mpiexec', '--allow-run-as-root', '--oversubscribe', '-np', str(mpiexec), exe]
+            p = subprocess.run(cmd, stdout=subprocess.PIPE, stderr=subprocess.PIPE, text=True, env=env, timeout=timeout)
             return p.returncode, p.stdout, p.stderr
         except subprocess.TimeoutExpired:
             return -9, '', 'timeout'
@@ -500,7 +501,7 @@ def replay(native, u, inputs, label, issue_kind):
     exe = native.build_harness(u['harness'], u.get('defs', []))
     if exe is None:
         return dict(reproduced=False, why='native build failed: %s' % (native.error or getattr(native, 'last_error', ''))[:600])
-    rc, out, err = native.run(exe, inputs)
+    rc, out, err = native.run(exe, inputs, mpiexec=u.get('mpiexec', 0))
     failed, recs, reach = parse_native(out)
     if issue_kind is None:
         if any(label == f or label.startswith(f) or f.startswith(label) for f in failed):
